@@ -104,7 +104,7 @@ U(id="C02.xz.index.r", props=["C02", "C03", "C04"], file="xz/reader.rs", extra_f
   contract="Index::parse accepts the spec index (xz-file-format 4) and returns exactly its records, consuming exactly its bytes")
 # parked (session 5): all three harnesses ran into the 900 s limit with no CBMC check reported; cause not diagnosed
 PARK(id="C04.xz.index.count", props=["C04", "C02", "C12"], file="xz/reader.rs", extra_files=["xz.rs"],
-  harnesses=["c04_xz_index_footer_count_n0", "c04_xz_index_footer_count_n1", "c04_xz_index_footer_count_n2"],
+  harnesses=["c04_xz_index_footer_count_ok_n0_crc32"], thorough_harnesses=["c04_xz_index_footer_count_n0", "c04_xz_index_footer_count_n1", "c04_xz_index_footer_count_n2"],
   kind="bounded", bound="record count <= 2, one-byte record fields; block counter: every u64; footer: every 12 bytes; every check type",
   functions=[("src/xz/reader.rs", "parse_index_and_footer", "XZReader"), ("src/xz/reader.rs", "parse", "Index"), ("src/xz/reader.rs", "parse", "StreamFooter")],
   contract="XZReader::parse_index_and_footer returns Ok iff the index record count equals the number of blocks decoded and the footer (CRC, flags = header flags, magic) is valid; otherwise InvalidData")
